@@ -83,7 +83,7 @@ def model_text(v):
 
 class Text(Part):
     name = "text"
-    examples = {"quick": 6000, "thorough": 120000}
+    examples = {"quick": 3000, "thorough": 120000}
     floors = {"starts_lt": 0.05, "has_expr": 0.5, "file": 0.2}
 
     def strategy(self, tier):
